@@ -11,6 +11,9 @@ import (
 // multi-statement programs.
 func SynProgram(g *Syn, i int) *Program {
 	rng := g.Rng
+	// every seventh program draws all its names from a pool of two
+	g.Few = i%7 == 3
+	defer func() { g.Few = false }()
 	switch i % 4 {
 	case 0:
 		return Query("T", &Op{K: "where", X: g.Surface(g.Expr(2+rng.Intn(5)), 5)})
